@@ -114,10 +114,19 @@ package scheduler
 //@   calls Scheduler.kill#*: set nkill = nkill + 1
 
 // kill / cancel / requeue act only while holding the per-container operation lock.
-//@ func Scheduler.uuidLock trusted
-//@   modifies Scheduler.uuidOp mem:string
-//@ func Scheduler.uuidUnlock trusted
-//@   modifies Scheduler.uuidOp
+//@ extern time.Timer.Reset
+//@   modifies nothing
+//@ func Scheduler.uuidLock property C14 safety -nil
+//@   modifies map[string]string
+//@   # the per-container operation latch: granted iff no operation is in progress
+//@   # for this uuid, and then recorded; other uuids are untouched
+//@   ensures sch.uuidOp != nil ==> result == !old(has(sch.uuidOp, uuid))
+//@   ensures result ==> dom(sch.uuidOp)[uuid]
+//@   ensures forall u string :: u != uuid ==> dom(sch.uuidOp)[u] == old(dom(sch.uuidOp)[u])
+//@ func Scheduler.uuidUnlock property C14
+//@   modifies map[string]string
+//@   ensures !has(sch.uuidOp, uuid)
+//@   ensures forall u string :: u != uuid ==> dom(sch.uuidOp)[u] == old(dom(sch.uuidOp)[u])
 //@ func Scheduler.kill property C14
 //@   ghost locked bool = false
 //@   calls Scheduler.uuidLock#1: requires $0 == uuid
